@@ -184,7 +184,7 @@ def gen_full(rng, builtin_path):
     for step in range(rng.below(3)):
         program.do_steps.append((rng.range(1, len(program.contributions)), f"do t{step} <- ret {step};"))
     # optionally inject a cycle through values / a parameter, or a duplicated name
-    twist = rng.below(10)
+    twist = rng.below(12)
     if twist == 0 and len(value_nodes) >= 1:
         i = 90
         program.contributions.append((f"v{i}", f"def v{i} : Int64 = v{i + 1}", False, {f"v{i + 1}", "H2"}))
@@ -218,6 +218,15 @@ def gen_full(rng, builtin_path):
         program.contributions.append(("T98", "def T98 : VType = T99", False, {"T99", "H1"}))
         program.contributions.append(("T99", "let T99 = p97", False, {"p97"}))
         program.expect, program.note = "reject", "cycle through a parameter closing through definitions"
+    elif twist == 7:
+        # a recursive type written with a transparent `let` (and a kind annotation) instead of `def`:
+        # rejected with a diagnostic (missing seal), never a crash
+        program.contributions.append(("R97", "let R97 : VType = data | +KR97 : Int64 | +LR97 : R97 end", False, {"R97", "H1", "H2"}))
+        program.expect, program.note = "reject", "recursive type group member written with `let`"
+    elif twist == 8:
+        program.contributions.append(("R98", "let R98 : VType = data | +KR98 : Int64 | +LR98 : R99 end", False, {"R99", "H1", "H2"}))
+        program.contributions.append(("R99", "def R99 : VType = data | +KR99 : R98 end", False, {"R98", "H1"}))
+        program.expect, program.note = "reject", "mutually recursive type group with one member written with `let`"
     return program
 
 
@@ -260,6 +269,31 @@ def gen_params(rng, builtin_path):
     program.suffix = " that\n  ! f " + " ".join(str(a) for a in arguments[:count]) + "\nend"
     program.exit_code = None
     program.note = f"nested parameter block ({count} parameters, {len(aliases)} annotated through a local alias)"
+    return program
+
+
+def gen_monadic_basis(rng, builtin_path):
+    """The repository's monadic fixture with the basis (`Monad`, `Algebra`) *contributed* with `that`:
+    a definition containing an `@[monadic]` block depends on the contribution that opens the basis,
+    although it does not mention it by name."""
+    program = Program()
+    program.family = "monadic-basis"
+    monad = builtin_path.replace("builtin.zy", "control/monad.zy")
+    code = rng.range(2, 90)
+    program.contributions = [
+        ("M0", f'let monadic_basis = @(import("{monad}"))', False, set()),
+        ("M1", f'param ((/core; /representations; /system; builtin) : @(import("{builtin_path}")))', True, set()),
+        ("M2", "let (/Ret; /Unit) = core", False, {"M1"}),
+        ("M3", "let (/process) = system", False, {"M1"}),
+        ("M4", "let (= Monad, = Algebra, ()) = monadic_basis builtin", False, {"M0", "M1"}),
+        ("M5", "def ! ret_monad : Monad Ret = comatch | .return A value => ret value | .bind A B computation continuation => do value <- ! computation; ! continuation value end", False, {"M4", "M2"}),
+        ("M6", "def ! translated = @[monadic] begin ret () end", False, {"M4", "M2"}),
+        ("M7", "let (/Scalar = Int64) = representations/i64", False, {"M1"}),
+        ("M8", f"let code : Int64 = {code}", False, {"M7"}),
+    ]
+    program.body = "do _ <- ! translated Ret { ! ret_monad }; ! (process/exit) code"
+    program.exit_code = code
+    program.note = "monadic basis contributed with `that`"
     return program
 
 
@@ -344,11 +378,13 @@ def permutations_of(program, rng, limit):
 
 def generate(seed, index, builtin_path):
     rng = Rng(mix(seed, ENGINE, index))
-    family = rng.below(10)
+    family = rng.below(11)
     if family < 6:
         return gen_full(rng, builtin_path), rng
     if family < 8:
         return gen_params(rng, builtin_path), rng
+    if family < 9:
+        return gen_monadic_basis(rng, builtin_path), rng
     return gen_small(rng), rng
 
 
@@ -417,6 +453,84 @@ def gen_bad_builtin_signature(rng):
     )
 
 
+def gen_monadic(rng, builtin_path, monad_path):
+    """The repository's `monadic-ret` fixture with a generated codata/comatch (k destructors) and a
+    generated data/match (k constructors) inside the `@[monadic]` block: the elaborated arms appear
+    in the emitted IR, so their order must not depend on the process."""
+    k = rng.range(2, 5)
+    names = [f"d{rng.range(10, 99)}x{i}" for i in range(k)]
+    destructors = "\n        ".join(f"| .{name} : Ret Unit" for name in names)
+    arms = "\n        ".join(f"| .{name} => ret ()" for name in names)
+    chosen = rng.pick(names)
+    return f"""begin
+  let monadic_basis = @(import("{monad_path}")) that
+  param (
+    (/core; /system; builtin) :
+    @(import("{builtin_path}"))
+  ) that
+  let (/Ret; /Unit) = core that
+  let (/process) = system that
+  let (= Monad, = Algebra, ()) = monadic_basis builtin in
+  begin
+    def ! ret_monad : Monad Ret =
+      comatch
+      | .return A value => ret value
+      | .bind A B computation continuation =>
+        do value <- ! computation;
+        ! continuation value
+      end
+    that
+    def ! translated = @[monadic] begin
+      let Object =
+        codata
+        {destructors}
+        end
+      in
+      let ! object : Object =
+        comatch
+        {arms}
+        end
+      in
+      ! object .{chosen}
+    end that
+    do _ <- ! translated Ret {{ ! ret_monad }};
+    ! (process/exit) 0
+  end
+end
+"""
+
+
+def gen_shared_sink_writers(rng, builtin_path):
+    """Several file writers onto one sink (the process's standard output opened again as a file),
+    written to in program order and never closed: what reaches the sink, and in which order, must
+    be the program order in every process."""
+    k = rng.range(2, 4)
+    words = ["first", "second", "third", "fourth"][:k]
+    opens = ""
+    closes = ""
+    for index in range(k):
+        opens += f'  ! (fs/append_writer) "/dev/stdout" {{ fn c m => ! (process/exit) 9 }} {{ fn w{index} =>\n'
+        closes += " }"
+    writes = ""
+    tail = ""
+    for index, word in enumerate(words):
+        writes += (f'    do b{index} <- ! (bytes/from_string) "{word} {rng.range(10, 99)}\\n";\n'
+                   f'    ! (io/write_all) w{index} b{index} {{ fn c m => ! (process/exit) 8 }} {{\n')
+        tail += " }"
+    return f"""begin
+  param ((/core; /representations; /text; /system) : @(import("{builtin_path}"))) that
+  let (/VType; /CType; /Thk; /Ret; /Unit) = core that
+  let (/Scalar = String) = representations/string that
+  let (/Scalar = Bytes) = representations/bytes that
+  let (/bytes) = text that
+  let (/Reader; /Writer; /OS; /io; /fs; /process) = system that
+{opens}{writes}    ! (process/exit) 0
+   {tail}
+{closes}
+end
+"""
+
+
 def write_block_corpus(tree, seed, count):
     """Extra corpus for C16: one shuffled rendering of `count` generated programs."""
     directory = os.path.join(tree, "lib", "zygen")
@@ -434,6 +548,19 @@ def write_block_corpus(tree, seed, count):
         rel = os.path.join("lib", "zygen", f"block{index}.zy")
         with open(os.path.join(tree, rel), "w") as handle:
             handle.write(program.render(order))
+        written.append(rel)
+    monad = os.path.join(tree, "lib", "std", "control", "monad.zy")
+    for index in range(max(4, count // 6)):
+        rng = Rng(mix(seed, ENGINE, 4000 + index))
+        rel = os.path.join("lib", "zygen", f"monadic{index}.zy")
+        with open(os.path.join(tree, rel), "w") as handle:
+            handle.write(gen_monadic(rng, builtin, monad))
+        written.append(rel)
+    for index in range(max(3, count // 8)):
+        rng = Rng(mix(seed, ENGINE, 5000 + index))
+        rel = os.path.join("lib", "zygen", f"writers{index}.zy")
+        with open(os.path.join(tree, rel), "w") as handle:
+            handle.write(gen_shared_sink_writers(rng, builtin))
         written.append(rel)
     for index in range(max(4, count // 4)):
         rng = Rng(mix(seed, ENGINE, 3000 + index))
